@@ -163,7 +163,8 @@ type c09Act struct {
 	S    string `json:"s,omitempty"`
 	Rule bool   `json:"rule,omitempty"`
 
-	Ground bool `json:"ground,omitempty"` // retractall with a ground head d(k, s)
+	Ground bool `json:"ground,omitempty"`             // retractall with a ground head d(k, s)
+	Late   int  `json:"bound_after_assert,omitempty"` // asserta/assertz of d(V, s) with V a fresh variable of the query that is bound to this constant right after the assert: the stored clause keeps its variable
 }
 
 type c09Scenario struct {
@@ -281,6 +282,9 @@ func c09Gen(r *kit.Run) (*c09Scenario, *c09Store) {
 		}
 		a.S = next()
 		a.Rule = g.Choose(6) == 0
+		if (a.Act == "asserta" || a.Act == "assertz") && g.Choose(5) == 0 {
+			a.K, a.Late = "_", 1+g.Choose(3)
+		}
 		if a.Act == "retractall" && a.K != "_" && a.K != "K" && g.Choose(2) == 0 {
 			a.Ground = true
 			a.S = fmt.Sprintf("s%d", 1+g.Choose(stamp))
@@ -745,6 +749,10 @@ func c09ExecInQuery(r *kit.Run, sc *c09Scenario, st *c09Store) {
 		switch a.Act {
 		case "asserta", "assertz":
 			t = fmt.Sprintf("%s(%s)", a.Act, c.text(a.Pred))
+			if a.Late > 0 {
+				c.k = fmt.Sprintf("L%d", j)
+				t = fmt.Sprintf("%s(%s), L%d = %d", a.Act, c.text(a.Pred), j, a.Late)
+			}
 		case "retract":
 			t = fmt.Sprintf("retract(d%d(%s, _))", a.Pred, k)
 		case "once-retract":
